@@ -13,17 +13,25 @@ import (
 
 func main() {
 	cases := []struct{ name, p, h string }{
-		{"firstBytes_beginAnchor_counterexample", `^(?:a|^)`, "b"},
-		{"firstBytes_emptyBranch_counterexample", `^(?:ab|^)+x`, "x"},
-		{"firstBytes_endLine_counterexample", `^(?m:x|$\na)`, "\na"},
-		{"firstBytes_endLine_counterexample (2)", `^(?m:a|$)`, "\nb"},
-		{"firstBytes_captureAnchor_counterexample", `^(?:x|(^)a)`, "a"},
+		{"firstBytes_beginAnchor_fixed", `^(?:a|^)`, "b"},
+		{"firstBytes_emptyBranch_fixed", `^(?:ab|^)+x`, "x"},
+		{"firstBytes_endLine_fixed", `^(?m:x|$\na)`, "\na"},
+		{"firstBytes_endLine_fixed (2)", `^(?m:a|$)`, "\nb"},
+		{"firstBytes_captureAnchor_fixed", `^(?:x|(^)a)`, "a"},
+		{"firstBytes_captureAnchor_fixed (2)", `(?m:^)+((\A)(?m:$))a`, "a"},
+		{"firstBytes_captureAnchor_fixed (3)", `(?m:^)+((\A)(?m:$))`, "a"},
+		{"firstBytes_notAssertionOnly_nil", `^(?:\ba|x)`, "a"},
+		{"firstBytes_notAssertionOnly_nil (2)", `^(?:(?:^)*a|x)`, "a"},
+		{"firstBytes_notAssertionOnly_nil (3)", `^(?:(?:^|$)a|x)`, "a"},
 		{"firstBytes_runeError_counterexample", `^\x{FFFD}`, "\xff"},
+		{"  control: same literal, no filter", `(?:\x{FFFD})`, "\xff"},
+		{"  control: same literal, no filter", `x|\x{FFFD}`, "\xff"},
 		{"firstBytes_foldCase_fixed", `(?i)^ab`, "ab"},
-		{"firstBytes_foldCase_fixed (k)", `^(?i:k)`, "K"},
+		{"firstBytes_foldCase_fixed (k)", `^(?i:k)`, "K"},
 		{"firstBytes_latin1_fixed", `^[é-ë]x`, "éx"},
 		{"firstBytes_latin1_fixed (literal)", `^éx`, "éx"},
-		{"firstBytes_endText_in_fragment", `^(?:a|$)`, "b"},
+		{"firstBytes_endText_nil", `^(?:a|$)`, "b"},
+		{"firstBytes_endText_nil (2)", `^(?:a|$b)`, "b"},
 	}
 	for _, c := range cases {
 		re, err := syntax.Parse(c.p, syntax.Perl)
